@@ -7,6 +7,9 @@ NCases == Len(CasesIn)
 AsSet(s) == { s[i] : i \in 1..Len(s) }
 SetToSeq2(S) == LET RECURSIVE f(_) f(T) == IF T = {} THEN <<>> ELSE LET x == CHOOSE y \in T : \A z \in T : y <= z IN <<x>> \o f(T \ {x}) IN f(S)
 Gen(c) == [points |-> SetToSeq2(SuggestedPoints(c.nx, AsSet(c.wx), AsSet(c.wy))),
+           nested |-> LET S == SuggestedNested(AsSet(c.wx), AsSet(c.wy)) IN
+                      IF Cardinality(S) <= 400 THEN SetToSeq2({ p[1] * 100000 + p[2] : p \in S }) ELSE <<>>,
+           nnested |-> Cardinality(SuggestedNested(AsSet(c.wx), AsSet(c.wy))),
            conflicts |-> Cardinality(Conflicts(AsSet(c.wx), AsSet(c.wy)))]
 \* NOTE on the variable's name: a state variable that shares its name with bound variables / operator parameters of the extended
 \* modules (i, s, c, d ...) makes TLC treat those expressions as state-level and stop caching lazily evaluated values
